@@ -736,6 +736,29 @@ def run(check, an: Analysis):
     check.instance('U', 'until:stop-absorbed', stop_ok and absorbed > 0, where_fn(until.fn),
                    'after the wait StopSimulation ends the environment\'s scope and is '
                    'absorbed', path=rules.path_lines(*bad) if bad and not stop_ok else None)
+    enter = an.callee(ENV, '__aenter__')
+    reached_ok, n_flush, bad = True, 0, None
+    not_early = rules.asserted(ast.parse('self._loop.time < self._initial_time',
+                                         mode='eval').body, False)
+    for path in an.paths(enter):
+        for index, event in enumerate(path.events):
+            if not (event.kind in ('call', 'enter') and event.fn is enter.fn and (
+                    is_call_to(event, '_schedule') or is_call_to(event, 'do'))):
+                continue
+            n_flush += 1
+            waited = any(e.kind == 'susp' and e['how'] == 'await' and e['exit'] == 'normal'
+                         and e['expr'] is not None and rules.value_text(
+                             path, i, e['expr']) == 'time == self._initial_time'
+                         for i, e in enumerate(path.events[:index]))
+            on_time = not_early in [f for _p, f, _a in
+                                    rules.path_inequalities(path, 0, index)]
+            if not (waited or on_time):
+                reached_ok, bad = False, bad or (path, index)
+    check.instance('U', 'Environment.__aenter__:starts-at-initial-time',
+                   reached_ok and n_flush > 0, where_fn(enter.fn),
+                   'events created before the run are started only once the clock has '
+                   'reached the environment\'s initial time (%d starts on paths)' % n_flush,
+                   path=rules.path_lines(*bad) if bad else None, analysed=n_flush)
     supp = an.method(ENVSCOPE, '_is_suppressed')
     expr = [n for n in ast.walk(supp.node) if isinstance(n, ast.Return)]
     param = supp.node.args.args[1].arg
